@@ -40,7 +40,7 @@ def check(ctx, P, g, where, sut_exact=True):
         from enspara.cluster import util
         sc = util._get_distance_method(P.metric_name)
     elif sut_exact:
-        sc = M.sut_chebyshev
+        sc = M.sut_sqeuclid if P.metric_name == 'callable_sq' else M.sut_chebyshev
     M.check_consistent(P.X, P.metric_name, g.ci, g.centers, g.labels, g.distances, sut_callable=sc, where=where)
     ctx.count('consistency_checks')
 
@@ -82,7 +82,7 @@ def scenario(ctx):
         if not mpi and t.flag(1, 3):
             m = t.irange(1, min(4, P.n))
             init = t.perm(P.n)[:m]          # distinct frames in any order (e.g. the discovery order of an earlier run)
-        spec = dict(algo='kcenters', form=form, k=k, cutoff=cutoff, tri=t.flag() and form == 'function')
+        spec = dict(algo='kcenters', form=form, k=k, cutoff=cutoff, tri=t.flag() and form == 'function' and P.is_metric())
         if form == 'estimator' and t.flag(1, 3):
             spec['late_params'] = 1 + t.draw(2)
         if init is not None:
